@@ -175,32 +175,193 @@ def rule_error_path(ctx):
 
 def rule_add_files(ctx):
     R = "C02.3"
-    ctx.rule(R, "every way through the loop body of FileStack::add_files for one command-line path either queues it, recurses into it, or pushes a report")
-    import alpha
-    for name, effects in (("add_files", ("push", "add_files")),):
-        fn0 = find_fn(INC, name)
-        if fn0 is None:
-            ctx.missing(R, "FileStack::" + name)
+    ctx.rule(R, "for every kind of path named on the command line (directory readable or not; file without extension, with the `circom` extension, with another one; canonicalisable or not) the loop body of FileStack::add_files queues it, recurses into it, or pushes a report - decided by evaluating the body on each kind, so the way the tests are written does not matter")
+    from astlib import inline_helpers
+    import itertools
+
+    fn0 = find_fn(INC, "add_files")
+    if fn0 is None:
+        return ctx.missing(R, "FileStack::add_files")
+    fn = inline_helpers(fn0, INC)
+    loops = [n for n in walk(fn["body"]) if n["k"] == "For"]
+    if len(loops) != 1:
+        return ctx.missing(R, "add_files/loop")
+    lp = loops[0]
+    pvar = render(lp["pat"]).replace("&", "").strip()
+
+    class Unknown(Exception):
+        pass
+
+    SOME = lambda v: ("Some", v)
+    NONE = ("None",)
+
+    def ev(e, w, env):
+        e = strip(e)
+        k = e["k"]
+        if k == "Path":
+            if e["path"] in env:
+                return env[e["path"]]
+            if e["path"] == pvar:
+                return ("path",)
+            raise Unknown(e["path"])
+        if k == "Lit":
+            return e["value"]
+        if k == "Unary" and e["op"] == "!":
+            return not ev(e["e"], w, env)
+        if k == "Binary" and e["op"] in ("&&", "||"):
+            l = ev(e["l"], w, env)
+            if e["op"] == "&&":
+                return l and ev(e["r"], w, env)
+            return l or ev(e["r"], w, env)
+        if k == "Binary" and e["op"] in ("==", "!="):
+            l, r = ev(e["l"], w, env), ev(e["r"], w, env)
+            return (l == r) == (e["op"] == "==")
+        if k == "MethodCall":
+            m = e["method"]
+            recv = ev(e["recv"], w, env)
+            if recv == ("path",):
+                if m in w.get("extra", {}):
+                    return w["extra"][m]
+                if m == "is_dir":
+                    return w["dir"]
+                if m == "is_file":
+                    return not w["dir"]
+                if m == "extension":
+                    return NONE if w["ext"] is None else SOME(w["ext"])
+            if isinstance(recv, tuple) and recv and recv[0] in ("Some", "None", "Ok", "Err"):
+                if m in ("is_some", "is_ok"):
+                    return recv[0] in ("Some", "Ok")
+                if m in ("is_none", "is_err"):
+                    return recv[0] in ("None", "Err")
+                if m in ("map_or", "is_some_and", "map_or_else") and e["args"] and e["args"][-1]["k"] == "Closure":
+                    cl = e["args"][-1]
+                    if recv[0] in ("Some", "Ok"):
+                        nm = [b["name"] for b in walk(cl["inputs"][0]) if b["k"] == "PIdent"]
+                        return ev(cl["body"], w, dict(env, **{nm[0]: recv[1]}) if nm else env)
+                    return ev(e["args"][0], w, env) if m == "map_or" else False
+            if m in ("to_str", "to_string_lossy", "to_string", "as_ref", "unwrap_or_default") and not e["args"]:
+                return recv
+            raise Unknown(render(e)[:60])
+        if k == "Call":
+            f = render(e["func"])
+            if f.endswith("read_dir"):
+                return ("Ok", ("entries",)) if w["readable"] else ("Err", None)
+            if f.endswith("canonicalize"):
+                return ("Ok", ("canon",)) if w["canon"] else ("Err", None)
+            if f in ("Some", "Ok") and len(e["args"]) == 1:
+                return (f, ev(e["args"][0], w, env))
+            raise Unknown(f)
+        if k in ("Match", "If", "Block"):
+            return ev_branch(e, w, env)
+        if k == "Macro" and e["name"].endswith("matches") and e.get("parsed"):
+            v = ev(e["args"][0], w, env)
+            env2 = dict(env)
+            return bind(e["pat"], v, env2) and (e.get("guard") is None or ev(e["guard"], w, env2))
+        raise Unknown(k + ": " + render(e)[:60])
+
+    def bind(p, v, env):
+        while p["k"] in ("PRef", "PType"):
+            p = p["pat"]
+        k = p["k"]
+        if k == "PWild":
+            return True
+        if k == "PIdent":
+            if p["name"] in ("None",):
+                return v == NONE
+            env[p["name"]] = v
+            return True
+        if k == "PPath":
+            return v == NONE if p["path"].endswith("None") else False
+        if k == "PTupleStruct":
+            ctor = p["path"].split("::")[-1]
+            if not (isinstance(v, tuple) and v and v[0] == ctor):
+                return False
+            return bind(p["elems"][0], v[1] if len(v) > 1 else None, env) if p["elems"] else True
+        if k == "PLit":
+            return v == p["lit"]["value"]
+        raise Unknown("pattern " + render(p))
+
+    def ev_branch(e, w, env):
+        if e["k"] == "Block":
+            from astlib import block_tail
+
+            t = block_tail(e)
+            if t is None or len(e["stmts"]) != 1:
+                raise Unknown("block")
+            return ev(t, w, env)
+        if e["k"] == "If":
+            c = e["cond"]
+            if c["k"] == "Let":
+                env2 = dict(env)
+                if bind(c["pat"], ev(c["e"], w, env), env2):
+                    return ev(e["then"], w, env2)
+                return ev(e["else"], w, env)
+            return ev(e["then"], w, env) if ev(c, w, env) else ev(e["else"], w, env)
+        v = ev(e["scrut"], w, env)
+        for a in e["arms"]:
+            env2 = dict(env)
+            if bind(a["pat"], v, env2) and (a.get("guard") is None or ev(a["guard"], w, env2)):
+                return ev(a["body"], w, env2)
+        raise Unknown("no arm")
+
+    def holds(f, w, env):
+        """env: bindings made by the pattern facts earlier on the same path"""
+        if f[0] == "if":
+            return ev(f[1], w, env) == f[2]
+        if f[0] == "iflet":
+            return bind(f[1], ev(f[2], w, env), env) == f[3]
+        if f[0] == "arm":
+            return bind(f[2], ev(f[1], w, env), env) and (f[3] is None or ev(f[3], w, env))
+        if f[0] == "notall":
+            e2 = dict(env)
+            return not all(holds(g, w, e2) for g in f[1])
+        if f[0] == "loop":
+            return True
+        raise Unknown(fact_str(f))
+
+    def path_possible(conds, w):
+        env = {}
+        for f in conds:
+            if not holds(f, w, env):
+                return False
+        return True
+
+    paths = enumerate_paths(lp["body"])
+    ctx.floor(R, "add_files paths", len(paths), 4)
+    # any other yes/no question the body asks about the path (`is_symlink()`, `exists()`, ..) is one more dimension
+    extras = sorted({m_["method"] for m_ in walk(lp["body"]) if m_["k"] == "MethodCall" and not m_["args"] and render(strip(m_["recv"])) == pvar and (m_["method"].startswith(("is_", "has_")) or m_["method"] == "exists") and m_["method"] not in ("is_dir", "is_file")})
+    worlds = []
+    for d, r, x, c in itertools.product((True, False), (True, False), (None, "circom", "txt"), (True, False)):
+        if d and (x is not None or not c):
+            continue  # for a directory only readability matters
+        if not d and not r:
             continue
-        fn, miss = alpha.canon(fn0, [("paths", "param", 0), ("reports", "param", 1), ("path", "forvar", "paths"), ("entries", "oklet", "fs::read_dir(path)", "optional"), ("extension", "somelet", "path.extension()", "optional")])
-        if miss:
-            ctx.missing(R, "FileStack::%s/roles" % name, "cannot identify %s" % miss)
-            continue
-        loops = [n for n in walk(fn["body"]) if n["k"] == "For"]
-        if len(loops) != 1:
-            ctx.missing(R, name + "/loop")
-            continue
-        n = 0
-        for conds, atoms, ex in enumerate_paths(loops[0]["body"]):
-            n += 1
+        for vals in itertools.product((False, True), repeat=len(extras)):
+            worlds.append({"dir": d, "readable": r, "ext": x, "canon": c, "extra": dict(zip(extras, vals))})
+
+    def name(w):
+        ex_ = "".join(",%s" % k_ for k_, v_ in sorted(w.get("extra", {}).items()) if v_)
+        if w["dir"]:
+            return "directory,%s%s" % ("readable" if w["readable"] else "unreadable", ex_)
+        return "file,%s,%s%s" % ("no-extension" if w["ext"] is None else ("extension-circom" if w["ext"] == "circom" else "extension-other"), "canonicalisable" if w["canon"] else "not-canonicalisable", ex_)
+
+    try:
+        for w in worlds:
+            taken = [p_ for p_ in paths if path_possible(p_[0], w)]
+            if len(taken) != 1:
+                ctx.bad(R, "add_files/input[%s]/one-path" % name(w), "%d ways through the loop body are possible for this kind of path" % len(taken), site(INC, lp))
+                continue
+            conds, atoms, ex = taken[0]
             eff = []
-            for a in atoms:
-                for x in walk(a):
-                    if x["k"] == "MethodCall" and x["method"] in effects:
-                        eff.append("%s.%s" % (render(strip(x["recv"]))[:30], x["method"]))
-            cs = ";".join(s.replace(" ", "") for s in facts_str(conds))
-            ctx.check(R, "%s/path[%s]" % (name, cs), bool(eff), ("effects: %s" % eff) if eff else "this path neither queues the file, nor recurses, nor reports: the path named by the user is skipped silently", site(INC, loops[0]))
-        ctx.floor(R, name + " paths", n, 5)
+            for a_ in atoms:
+                for x_ in walk(a_):
+                    if x_["k"] == "MethodCall" and x_["method"] in ("push", "add_files"):
+                        eff.append("%s.%s" % (render(strip(x_["recv"]))[:30], x_["method"]))
+            if w["ext"] != "circom" and not w["dir"] and not w["canon"]:
+                continue  # same outcome as the canonicalisable case of that kind: one representative is enough
+            ctx.check(R, "add_files/input[%s]" % name(w), bool(eff), ("effects: %s" % eff) if eff else "a path of this kind named by the user is skipped without queueing, recursing or reporting", site(INC, lp))
+    except Unknown as u:
+        ctx.missing(R, "add_files/evaluation", "cannot evaluate the loop body: %s" % u)
 
 
 def rule_desugar(ctx):
